@@ -270,6 +270,11 @@ func (x *Exec) readGlobal(s *State, o *types.Var) Val {
 	if v.K == KIface && x.eng.globalNonNil(o) {
 		s.assume(mkNot(mkEq(v.Tag, "0")))
 	}
+	if _, isPtr := under(o.Type()).(*types.Pointer); isPtr && v.K == KInt && x.eng.globalNonNil(o) && strings.HasSuffix(v.S, "@0") {
+		// a package-level pointer initialised by a constructor call or &T{...} and never reassigned
+		s.assume(mkNot(mkEq(v.S, "0")))
+		x.eng.note("package-level pointer variables initialised by a call or &literal are non-nil (" + o.Pkg().Name() + "." + o.Name() + ")")
+	}
 	if v.K == KIface && x.eng.globalSentinel(o) && strings.HasSuffix(v.Tag, "@0") && strings.HasSuffix(v.Dat, "@0") {
 		// sentinel errors made by their own errors.New call are distinct objects without a chain
 		key := o.Pkg().Path() + "." + o.Name()
